@@ -39,7 +39,7 @@ func leanIdent(method string) string {
 	return r.Replace(method)
 }
 
-func constInt64(v constant.Value) (int64, bool) { return constant.Int64Val(constant.ToInt(v)) }
+func gateConstInt64(v constant.Value) (int64, bool) { return constant.Int64Val(constant.ToInt(v)) }
 
 func (g *gateX) methodOfExpr(e ast.Expr) (string, bool) {
 	switch x := e.(type) {
@@ -487,7 +487,7 @@ func (g *gateX) run() {
 						continue
 					}
 					if v, ok := c.Const("internal/jsonrpc2", ce.Args[0]); ok {
-						if n64, ok := constInt64(v); ok {
+						if n64, ok := gateConstInt64(v); ok {
 							codes[n.Name] = n64
 						}
 					}
